@@ -22,9 +22,10 @@ type literal struct {
 }
 
 type dpath struct {
-	Lits   []literal
-	Stores map[string]string // field -> canonical value key
-	Result string            // canonical key of the result ("true"/"false"/"nil"/value key)
+	Lits    []literal
+	Stores  map[string]string // field -> canonical value key
+	Result  string            // canonical key of the result ("true"/"false"/"nil"/value key)
+	Results []ssa.Value       // all results, resolved along the path (phis, spilled named results)
 }
 
 var idRe = regexp.MustCompile(`@b\d+i\d+`)
@@ -68,11 +69,20 @@ func enumPaths(fl *Flow, maxPaths int) ([]dpath, error) {
 		lits   []literal
 		stores map[string]string
 		phis   map[*ssa.Phi]ssa.Value
+		locals map[*ssa.Alloc]ssa.Value
 		onPath map[*ssa.BasicBlock]bool
 	}
 	var err error
 	resolve := func(st *state, v ssa.Value) ssa.Value {
 		for i := 0; i < 8; i++ {
+			if u, ok := v.(*ssa.UnOp); ok {
+				if a, ok := u.X.(*ssa.Alloc); ok {
+					if lv, ok := st.locals[a]; ok {
+						v = lv
+						continue
+					}
+				}
+			}
 			ph, ok := v.(*ssa.Phi)
 			if !ok {
 				return v
@@ -99,9 +109,12 @@ func enumPaths(fl *Flow, maxPaths int) ([]dpath, error) {
 			return
 		}
 		// copy state
-		ns := state{lits: append([]literal{}, st.lits...), stores: map[string]string{}, phis: map[*ssa.Phi]ssa.Value{}, onPath: map[*ssa.BasicBlock]bool{}}
+		ns := state{lits: append([]literal{}, st.lits...), stores: map[string]string{}, phis: map[*ssa.Phi]ssa.Value{}, locals: map[*ssa.Alloc]ssa.Value{}, onPath: map[*ssa.BasicBlock]bool{}}
 		for k, v := range st.stores {
 			ns.stores[k] = v
+		}
+		for k, v := range st.locals {
+			ns.locals[k] = v
 		}
 		for k, v := range st.phis {
 			ns.phis[k] = v
@@ -131,13 +144,22 @@ func enumPaths(fl *Flow, maxPaths int) ([]dpath, error) {
 		for _, in := range b.Instrs {
 			switch x := in.(type) {
 			case *ssa.Store:
+				if a, ok := x.Addr.(*ssa.Alloc); ok {
+					if u, isU := x.Val.(*ssa.UnOp); !(isU && u.X == a) {
+						ns.locals[a] = resolve(&ns, x.Val)
+					}
+				}
 				if fa, ok := x.Addr.(*ssa.FieldAddr); ok && rootAlloc(fa) == nil {
 					ns.stores[fieldName(fa.X.Type(), fa.Field)] = abbrevFn(canon(fl.K.Key(resolve(&ns, x.Val))))
 				}
 			case *ssa.Return:
 				res := "void"
+				var allRes []ssa.Value
+				for i := range x.Results {
+					allRes = append(allRes, resolve(&ns, x.Results[i]))
+				}
 				if len(x.Results) > 0 {
-					v := resolve(&ns, retValue(x, 0))
+					v := resolve(&ns, x.Results[0])
 					switch {
 					case isBoolConst(v, true):
 						res = "true"
@@ -157,14 +179,14 @@ func enumPaths(fl *Flow, maxPaths int) ([]dpath, error) {
 										lits = append(lits, l)
 									}
 								}
-								out = append(out, dpath{lits, ns.stores, map[bool]string{true: "true", false: "false"}[truth]})
+								out = append(out, dpath{lits, ns.stores, map[bool]string{true: "true", false: "false"}[truth], allRes})
 							}
 							return
 						}
 						res = abbrevFn(canon(fl.K.Key(v)))
 					}
 				}
-				out = append(out, dpath{ns.lits, ns.stores, res})
+				out = append(out, dpath{ns.lits, ns.stores, res, allRes})
 				return
 			}
 		}
@@ -192,7 +214,7 @@ func enumPaths(fl *Flow, maxPaths int) ([]dpath, error) {
 			walk(s, b, cs)
 		}
 	}
-	walk(fn.Blocks[0], nil, state{stores: map[string]string{}, phis: map[*ssa.Phi]ssa.Value{}, onPath: map[*ssa.BasicBlock]bool{}})
+	walk(fn.Blocks[0], nil, state{stores: map[string]string{}, phis: map[*ssa.Phi]ssa.Value{}, locals: map[*ssa.Alloc]ssa.Value{}, onPath: map[*ssa.BasicBlock]bool{}})
 	return out, err
 }
 
